@@ -62,7 +62,10 @@ CHECKS['C14'] = (
     'core vs not, closed over the regenerated bundles via tie theorems; section view = segment view; stabs exact; correspondence on spec-encoded, raw and '
     'shipped-binary extents',
     'Proof: iterating a note extent yields exactly the encoded notes with offsets and padded sizes, consuming the extent; known descriptors decode to their fields.',
-    'Correspondence-only: ELF container glue, malformed extents, inputs outside Note.wf (name without NUL, x86 feature property with datasz != 4, descriptor length not matching its grammar, non-zero padding).',
+    'Whole-file forms compose the extent theorems with C01 (any byte string carrying a wfZ description: section view, segment view inside / over several sections, their equality; '
+    '…_generated forms over the regenerated factory), and the edge of the domain is proved (truncated header, last note past the extent, unpadded final note, unterminated name, '
+    'descriptor cut by EOF, zero-length names, unknown types/owners). Correspondence-only: descriptors of a known type without that type\'s grammar, bytes after the name terminator, '
+    'structured descriptors cut by EOF, files outside wfZ.',
     'DESIGN.md §6 C14')
 CHECKS['C20'] = (
     'Lean 4 theorems: attribute-section round trip (any number of subsections / sub-subsections / attributes, padded ULEB128, both byte orders and '
@@ -120,9 +123,10 @@ CHECKS['C05'] = (
     'header parameters, every standard/extended/special/unknown opcode, padded LEB128; decoding consumes exactly the extent; header round trip for versions <= 4 (v5 closed '
     'instances); cache coherence; regenerated header struct and DW_LNS/DW_LNE constants tied to the Spec; correspondence on spec-encoded and mutated programs',
     'Proof: rows equal the standard machine\'s for every well-formed program; the program attached to a unit is the one DW_AT_stmt_list designates.',
-    'v5 header pieces are proved separately (entry-format table, FormattedEntry rows for every form, string resolution through .debug_str/.debug_line_str) plus two closed kernel-checked '
-    'whole-header instances; the single composed v5 header theorem is not stated; VLIW op_index arithmetic is proved (std_*_vliw). header_length is not honoured by the code '
-    '(program_start = tell()), so the encoder sets it exactly; DW_FORM_strx* in line tables raises NotImplementedError (split DWARF, outside WF).',
+    'line_header_roundtrip_ext / _v5 cover versions 2-5 with any extension bytes under header_length (honoured since fix 087c37c: line_header_length_honoured), the composed v5 header incl. resolved names '
+    'and the synthesised legacy views, end-to-end forms for v5; parameters need only fit their fields: zero line_range / maximum_operations_per_instruction give exactly ZeroDivisionError at the first '
+    'dividing instruction (line_zero_division, line_divZero_iff). Correspondence-only: truncation, header_length below the known fields, disallowed (content type, form) pairs, v5 tables without a first '
+    'entry, DW_LNE_define_file in v5, get_entries memoisation (C10). DW_FORM_strx* in line tables raises NotImplementedError (split DWARF, outside WF).',
     'DESIGN.md §6 C05')
 CHECKS['C07'] = (
     'Lean 4 theorems: v4 and v5 list round trips for every DW_LLE/DW_RLE kind (padded ULEB128, any expression length), translation through the address table, offset-table '
@@ -138,7 +142,10 @@ CHECKS['C15'] = (
     'encoded entries and names; prefix when sh_info declares fewer; get_version = first carrier or none; has_indexes; versym rows paired with symbol names for any entry size; '
     'five record structs + Elf_Sym tied to the Spec; correspondence on assembled and damaged images',
     'Proof: version sections yield exactly their encoded entries and auxiliary chains; index resolution returns the entry carrying the index or nothing.',
-    'The assembler is not proved to satisfy the layout predicate (the driver evaluates it on every generated file); ELF container glue and malformed input are correspondence-only.',
+    'The assemblers are proved to satisfy the layout predicates for every description accepted by a structural well-formedness predicate (assemble_*_layout), giving closed …_carried_exact / '
+    '…_assembled_exact forms; whole-file forms through C01 (get_section and get_section_by_name on any byte string carrying the description); chains that end early (next = 0, cnt beyond the chain) '
+    'and chains that leave the file (ELFParseError) are theorems. The whole-file well-formedness examples are #guard-evaluated (Con.encodeRaw does not reduce in the kernel). '
+    'Correspondence-only: byte-level damage outside those two classes, has_indexes / definition get_version on auxiliary-truncated entries, name decoding.',
     'DESIGN.md §6 C15')
 CHECKS['C17'] = (
     'Lean 4 kernel evaluation (decide +kernel over Nat-keyed tables, one theorem per regenerated table + a catch-all over the table index): every (name, value) the library '
@@ -188,8 +195,10 @@ CHECKS['C10'] = (
     'Proof for the invariant (all operations) and for answer refinement on lookups, navigation (children/parent/siblings) and generators (take/all, and the k-th item of a suspended generator '
     'after any interleaved history: suspended_generator_kth) under a tree hypothesis TreeWF; random_access_eq_sequential; exhaustive history exploration + correspondence beside them.',
     'Navigation ops are proved for entry offsets only (on a garbage offset the code hangs _parent links on a garbage object: genuinely history-dependent, excluded by OpValidT). '
-    'Refinement is not proved for ref/pubname (invariant preservation is); siblings is not a generator kind; the CFI entry cache, abbrev cache and line-program header contents are '
-    'exploration/correspondence only. Known finding lineprogram-define-file-header (get_entries mutates the header). Invalid get_CU_at offsets poison the cache by design (out of scope).',
+    'ref/pubname refinement and siblings generators are proved; a cache layer (abbreviation tables shared between units, line-program objects, CallFrameInfo entries/_entry_cache) has its own '
+    'invariant XInvT and refinement theorems (xanswer_refines, abbrev_table_shared, line_program_exact, cfi_cache_hit_eq_miss for arbitrary section contents). Exploration-only: section/segment/symbol '
+    'access beyond the two name maps, stream positions of streams other than .debug_info, sibling-generator handles on the top DIE, CFI entries whose instructions overshoot their length followed by a '
+    'retry (excluded by CfiWF). Known finding lineprogram-define-file-header (get_entries mutates the header; excluded by LPWF). Invalid get_CU_at offsets poison the cache by design (out of scope).',
     'DESIGN.md §6 C10')
 
 CHECKS['C11'] = (
